@@ -290,6 +290,41 @@ def mutate1(v, atoms=ATOMS, _top=True) -> t.Iterator[t.Any]:
                 yield a
 
 
+def inflate(v, n, _depth=0) -> t.Iterator[t.Any]:
+    """The value made LARGE (about n elements): its outermost container repeated, the same with one wrong element at the far
+    end, and the value with its first child made large.  Verdicts come from the reference model like for any other value; the
+    point is to cross size thresholds (fast paths, chunking, caches keyed by a prefix) that two-element values never reach."""
+    k = kind(v)
+    if k == 'seq' and len(v) > 0:
+        ty = type(v)
+        lst = list(v)
+        big = [fresh(lst[i % len(lst)]) for i in range(n)]
+        yield ty(big)
+        if _depth == 0:
+            yield ty([fresh(x) for x in big[:-1]] + ['q#'])
+            yield ty([fresh(x) for x in big[:-1]] + [None])
+            for c in inflate(lst[0], n, 1):
+                yield ty([c] + [fresh(x) for x in lst[1:]])
+    elif k == 'map' and len(v) > 0:
+        items = list(v.items())
+        k0, x0 = items[0]
+        if isinstance(k0, str):
+            more = [f"{k0}{i}" for i in range(n)]
+        elif isinstance(k0, int) and not isinstance(k0, bool):
+            more = [k0 + 1000 + i for i in range(n)]
+        else:
+            return
+        more = [m for m in more if m not in v]
+        yield dict([(a, fresh(b)) for a, b in items] + [(m, fresh(x0)) for m in more])
+        if _depth == 0:
+            yield dict([(a, fresh(b)) for a, b in items] + [(m, fresh(x0)) for m in more[:-1]] + [(more[-1], 'q#')])
+            yield dict([(a, fresh(b)) for a, b in items] + [(m, fresh(x0)) for m in more[:-1]] + [(more[-1], None)])
+            for c in inflate(x0, n, 1):
+                yield dict([(k0, c)] + [(a, fresh(b)) for a, b in items[1:]])
+    elif type(v) is str and v and _depth == 0:
+        yield v * n
+
+
 def _rename_key(k):
     if isinstance(k, str):
         yield k.upper() if k.upper() != k else k.lower()
